@@ -88,7 +88,7 @@ def diffs(lhs, rhs):
     return out
 
 
-def assert_equal(res, name, lhs, rhs, assumptions, tol=1e-8, timeout_ms=60000, logic=None):
+def assert_equal(res, name, lhs, rhs, assumptions, tol=1e-8, timeout_ms=60000, logic=None, chunk=8):
     """Query: exists an assignment within `assumptions` with |lhs_i - rhs_i| > tol for some i?
     Returns (verdict, model, index of a violated entry or None).  Entries whose difference is a numeral
     are decided arithmetically (and count as violated if above tol)."""
@@ -111,14 +111,23 @@ def assert_equal(res, name, lhs, rhs, assumptions, tol=1e-8, timeout_ms=60000, l
                             "nvars": 0, "nontrivial": False, "hash": "trivial"})
         return "unsat", None, None
     t = z3.RealVal(tolq)
-    goal = z3.Or([z3.Or(d > t, d < -t) for _, d in sym])
-    verdict, model = solve(res, name, list(assumptions) + [goal], timeout_ms=timeout_ms, logic=logic)
-    idx = None
-    if verdict == "sat":
-        for i, d in sym:
-            v = model_value(model, d)
-            if abs(v) > tol:
-                idx = i; break
+    # one big disjunction puts one tableau row per entry into simplex; chunks keep each LP small
+    verdict, model, idx = "unsat", None, None
+    nchunks = (len(sym) + chunk - 1) // chunk
+    for c in range(nchunks):
+        part = sym[c * chunk:(c + 1) * chunk]
+        goal = z3.Or([z3.Or(d > t, d < -t) for _, d in part])
+        v, mdl = solve(res, name if nchunks == 1 else "%s [entries %d/%d]" % (name, c + 1, nchunks),
+                       list(assumptions) + [goal], timeout_ms=timeout_ms, logic=logic)
+        if v == "sat":
+            verdict, model = v, mdl
+            for i, d in part:
+                val = model_value(model, d)
+                if abs(val) > tol:
+                    idx = i; break
+            return verdict, model, idx
+        if v == "unknown":
+            verdict = "unknown"
     return verdict, model, idx
 
 
